@@ -20,6 +20,7 @@ import (
 	"time"
 
 	"github.com/attestantio/dirk/util/loggers"
+	"github.com/attestantio/dirk/util/verifhook"
 	badger "github.com/dgraph-io/badger/v2"
 	"github.com/dgraph-io/badger/v2/options"
 	"github.com/opentracing/opentracing-go"
@@ -135,6 +136,12 @@ func (s *Store) Fetch(ctx context.Context, key []byte) ([]byte, error) {
 	}
 
 	var value []byte
+	if verifhook.Enabled {
+		if err := verifhook.Point(ctx, "store.fetch.enter", key, nil); err != nil {
+			return nil, err
+		}
+		defer func() { _ = verifhook.Point(ctx, "store.fetch.exit", key, value) }()
+	}
 	err := s.db.View(func(txn *badger.Txn) error {
 		item, err := txn.Get(key)
 		if err != nil {
@@ -180,6 +187,18 @@ func (s *Store) BatchStore(ctx context.Context, keys [][]byte, values [][]byte) 
 			return errors.New("empty value provided")
 		}
 	}
+	if verifhook.Enabled {
+		for i := range keys {
+			if err := verifhook.Point(ctx, "store.batch.enter", keys[i], values[i]); err != nil {
+				return err
+			}
+		}
+		defer func() {
+			for i := range keys {
+				_ = verifhook.Point(ctx, "store.batch.exit", keys[i], values[i])
+			}
+		}()
+	}
 
 	wb := s.db.NewWriteBatch()
 	defer wb.Cancel()
@@ -204,6 +223,12 @@ func (s *Store) Store(ctx context.Context, key []byte, value []byte) error {
 
 	if len(value) == 0 {
 		return errors.New("no value provided")
+	}
+	if verifhook.Enabled {
+		if err := verifhook.Point(ctx, "store.store.enter", key, value); err != nil {
+			return err
+		}
+		defer func() { _ = verifhook.Point(ctx, "store.store.exit", key, value) }()
 	}
 
 	return s.db.Update(func(txn *badger.Txn) error {
